@@ -27,10 +27,13 @@ ASSUMPTIONS = [
 ]
 FLOORS = {'quick': {'nontrivial': 100, 'runs_checked': 150,
                     'pairs_checked': 100, 'payloads_checked': 20,
-                    'created_pairs_checked': 100},
+                    'created_pairs_checked': 100,
+                    'prepare_fault_runs': 60, 'command_fault_runs': 40},
           'thorough': {'nontrivial': 1500, 'runs_checked': 2000,
                        'pairs_checked': 1500, 'payloads_checked': 250,
-                       'created_pairs_checked': 1200}}
+                       'created_pairs_checked': 1200,
+                       'prepare_fault_runs': 600,
+                       'command_fault_runs': 400}}
 SIZES = {'quick': 64, 'thorough': 600}
 TIMEOUT = {'quick': 170, 'thorough': 1700}
 HANDOVERS = {'quick': 16, 'thorough': 150}
@@ -221,12 +224,12 @@ def check_run(rec, phase, h, labels_before, items, stats):
         if missing:
             items.append(dict(ctx, type='EVOLVED_BUT_NOT_RECORDED',
                               missing=sorted(missing)))
-    if not returned and phase == 'fault':
+    if not returned and phase in ('fault', 'prep'):
         new = recorded - before
         if new:
             items.append(dict(ctx, type='FAILED_RUN_RECORDED_LABELS',
                               labels=sorted(new)))
-    return bool(sigs) and (inrun_seen > 0 or phase == 'fault')
+    return bool(sigs) and (inrun_seen > 0 or phase in ('fault', 'prep'))
 
 
 class _Shim(object):
@@ -359,8 +362,13 @@ def run_case(desc):
         case, key = extra
         stats, items = {'handovers': 1}, []
     else:
-        h, res = faultlab.run_upgrade('C17', desc, max_k=40, scope='all',
-                                      with_rename=True)
+        # every third upgrade is driven through the management command,
+        # the others through the API with additional faults while the run
+        # is being prepared
+        via = 'cmd' if desc['i'] % 3 == 1 else 'api'
+        h, res = faultlab.run_upgrade(
+            'C17', desc, max_k=40, scope='all', with_rename=True,
+            extra_args={'via': via, 'prep_faults': [1, 2, 4, 7, 11, 16]})
         case = faultlab.case_of(h)
         key = S.canon([h.specs, h.steps])
         stats, items = {'upgrades': 1}, []
@@ -385,6 +393,14 @@ def run_case(desc):
             continue
         nt += check_run(rec, 'fault', h, lb, items, stats)
         stats['fault_runs'] = stats.get('fault_runs', 0) + 1
+        if rec.get('via') == 'cmd':
+            stats['command_fault_runs'] = stats.get(
+                'command_fault_runs', 0) + 1
+    for rec in res.get('prep_runs', []):
+        if not rec.get('fired'):
+            continue
+        nt += check_run(rec, 'prep', h, lb, items, stats)
+        stats['prepare_fault_runs'] = stats.get('prepare_fault_runs', 0) + 1
     for it in items:
         it['new_models'] = bool(case['new_models'])
         if case.get('handover'):
